@@ -231,6 +231,11 @@ impl Fiber {
     self.state == FiberState::Complete
   }
 
+  /// Is this fiber looking for the catch clause of an error
+  pub fn is_unwinding(&self) -> bool {
+    self.state == FiberState::Unwinding
+  }
+
   /// Is this fiber pending
   pub fn is_pending(&self) -> bool {
     self.state == FiberState::Pending
